@@ -24,7 +24,7 @@ def meta(tier):
         'level': 'fault_enumeration',
         'rule': ('seeded include trees to depth 4 and fan-out 3 over a virtual file system with nested directories; roots: URL with and '
                  'without directories, absolute path, relative path, bare file name, and no root URL function; references: same '
-                 'directory, sub-directory, ../, absolute URL/path, system includes against a configured prefix; adjacent includes '
+                 'directory, sub-directory, ../, absolute URL/path, system includes against a configured absolute / relative / URL prefix; includes wrapped in a function of the root file (global scope); adjacent includes '
                  '(merged statement), statements before/between/after, early return inside an included file, globals and functions '
                  'defined by includes and used by the includer. For every tree the fault-free run and, for EVERY fetch position k, the '
                  'runs where fetch k returns nothing / raises / returns a syntactically broken text are compared with RefVM on result '
@@ -32,7 +32,7 @@ def meta(tier):
                  'distinct = distinct (files, root, fault).'),
         'exhaustive': False,
         'extra': {'exhaustive_part': 'every fetch position x 3 fault kinds per tree'},
-        'assumptions': ['include statements only at the top level of a file; system includes only with a configured prefix ending in "/"',
+        'assumptions': ['include statements at the top level of a file, or inside a function that is defined and called in that same file (where dynamic and lexical base resolution coincide); system includes only with a configured prefix ending in "/" (absolute path, relative path or URL)',
                         'included texts are turned into models with the real parse_script on the reference side too'],
     }
 
